@@ -703,7 +703,7 @@ class C10(verif.Spec):
                    "malloc succeeds (the out-of-memory path of put is not modelled)",
                    "store refinement (refines_map_put) assumes memory is not short - true in libzvbi 0.2 while the cache holds "
                    "<= 0x800*80 pages (limit_unreachable_0_2); F17 shows the page count itself is not bounded"]
-    open_statements = ["hi_subno_agrees_full", "refines_map_put_repaired_full"]
+    open_statements = ["hi_subno_agrees_full"]   # refines_map_put_repaired_full: proved (Props/C10Evict.lean refines_map_put_repaired)
     trusted_base = ["lean/ZvbiModel/Cache/Model.lean: hand-written reading of src/cache.c (representation argued in NOTES/C10.md); "
                     "tied to the code by the correspondence run: every answer carries a digest of the complete cache state",
                     "translate/gen_cache.py (struct sizes, HASH_SIZE, death_row extent, limits; cross-checked by the `sizes` op)",
